@@ -210,3 +210,17 @@ package updates
 //@ func (*referenceTracker).processWeakReferences
 //@ at update updatedRows[*] requires istype(arg1, "ovsdb.OvsSet") ==> len(unbox(arg1, "ovsdb.OvsSet").GoSet) == ite(arg0 in updatedRows[uuid], len(unbox(updatedRows[uuid][arg0], "ovsdb.OvsSet").GoSet), 0) + 1
 
+// AddRowUpdate / AddRowUpdate2 (C13/C18): a received change is applied to a
+// CLONE of the current model, never to the model the caller handed in (the
+// cache's own object, which readers may hold).
+//@ func (*ModelUpdates).AddRowUpdate2 group clone
+//@ requires current != nil ==> allocated(ptrof(current))
+//@ at call updates.modifyModel requires arg2 != nil
+//@ at call updates.modifyModel requires current != nil ==> fresh(ptrof(arg2.Obj))
+//@ at call updates.modifyModel requires current != nil ==> arg2.Obj != current
+//@ func (*ModelUpdates).AddRowUpdate group clone
+//@ requires current != nil ==> allocated(ptrof(current))
+//@ at call updates.updateModel requires arg2 != nil
+//@ at call updates.updateModel requires current != nil ==> fresh(ptrof(arg2.Obj))
+//@ at call updates.updateModel requires current != nil ==> arg2.Obj != current
+
